@@ -30,12 +30,13 @@ P = "Arc.Compaction.Props"
 O = "Arc.Compaction.Obligations"
 THEOREMS = [(P, "C09_crash_recover"), (P, "C09_recover_any_pending"), (P, "C09_recover_any_prefix"), (P, "C09_no_early_delete"),
             (P, "C09_recover_no_early_delete"), (P, "C09_split_partition"), (P, "C09_filter_excludes_tracked"),
-            (P, "C09_kill_after_upload_recovers"), (P, "C09_relb_sound"), (P, "C09_oracle_hypothesis_satisfiable"),
+            (P, "C09_kill_after_upload_recovers"), (P, "C09_partial_tags_refuted"), (P, "C09_relb_sound"), (P, "C09_oracle_hypothesis_satisfiable"),
             (O, "C09_job_order_obligations"), (O, "C09_deployed_crash_recover"), (O, "C09_order_necessary")]
 MODULES = [P, O]
 TIE_NAME = ("C09 correspondence (compaction.Manager.RunCompactionCycle / Job.Run / ManifestManager recovery vs "
             "Arc.Compaction.Model.cycle) / Params_Compaction")
 SIGNATURE = "job-killed-after-upload-then-adaptive-retry"
+SIGNATURE_PARTIAL = "recompaction-with-partial-tag-metadata"
 
 PKG = "./internal/compaction/"
 HARNESS = {"internal/compaction/zz_compaction_verif_test.go": "harness/compaction/compaction_verif_test.go"}
@@ -318,26 +319,46 @@ def nontrivial(c):
 
 
 class Interner:
-    """key = the dedup key the code uses: (tag values, time) when files carry arc:tags, the
-    timestamp alone in an arc:dedup_time-only partition (no tag columns)"""
+    """key = the dedup key over the UNION of all tag columns of the measurement: (host, region, time);
+    ckey = the key of a job whose only tag metadata names just `host`: (host, time);
+    in an arc:dedup_time-only partition (no tag columns) both are the timestamp alone"""
 
     def __init__(self, time_only=False):
-        self.k, self.v = {}, {}
+        self.k, self.c, self.v = {}, {}, {}
         self.time_only = time_only
 
     def row(self, r):
-        # observed rows are [host, region, time, v, x]; the key uses the UNION of the tag columns
+        # observed rows are [host, region, time, v, x]
         key = json.dumps([r[2]] if self.time_only else [r[0], r[1], r[2]])
+        ckey = json.dumps([r[2]] if self.time_only else [r[0], r[2]])
         val = json.dumps(r)
-        if key not in self.k:
-            self.k[key] = len(self.k) + 1
-        if val not in self.v:
-            self.v[val] = len(self.v) + 1
-        return "(mkRow %s %s)" % (cn(self.k[key]), cn(self.v[val]))
+        for tab, x in ((self.k, key), (self.c, ckey), (self.v, val)):
+            if x not in tab:
+                tab[x] = len(tab) + 1
+        return "(mkRow %s %s %s)" % (cn(self.k[key]), cn(self.c[ckey]), cn(self.v[val]))
 
 
-def cfile(it, f):
-    return "(mkCFile %s %s %s %s)" % (clist([it.row(r) for r in f["rows"]]), cbool(f["meta"]), cbool(f["comp"]), cbool(f["readable"]))
+def tag_classes(c):
+    """per input file: (carries the FULL tag set, carries only PART of it).  The full tag set of the
+    partition is the union of the files' arc:tags; arc:dedup_time counts as full metadata."""
+    tags = [{"tags": {"host"}, "tags2": {"host", "region"}}.get(f.get("meta"), set()) for f in c["files"]]
+    full = set().union(*tags) if tags else set()
+    out = []
+    for f, t in zip(c["files"], tags):
+        if f.get("meta") == "dedup_time":
+            out.append((True, False))
+        else:
+            out.append((bool(t) and t == full, bool(t) and t != full))
+    return out
+
+
+def has_partial(c):
+    return any(p for _, p in tag_classes(c))
+
+
+def cfile(it, f, cls=(None, False)):
+    full = f["meta"] if cls[0] is None else cls[0]
+    return "(mkCFile %s %s %s %s %s)" % (clist([it.row(r) for r in f["rows"]]), cbool(full), cbool(cls[1]), cbool(f["comp"]), cbool(f["readable"]))
 
 
 def coutcome(o):
@@ -347,11 +368,16 @@ def coutcome(o):
 def case_to_coq(c, obs):
     metas = {f["meta"] for f in c["files"]}
     it = Interner(time_only=("dedup_time" in metas and "tags" not in metas and "tags2" not in metas))
-    files = clist([cfile(it, f) for f in obs["start"]])
+    cls = tag_classes(c)
+    start = obs["start"]
+    files = clist([cfile(it, f, cls[i] if (i < len(cls) and f["meta"]) else (False, False)) for i, f in enumerate(start)])
     cys = []
     for ocs, co in zip(c["cycles"], obs["cycles"]):
+        # raw inputs keep their class (matched by name), compacted outputs never carry tag metadata
+        byname = {f["name"]: cls[i] for i, f in enumerate(start) if i < len(cls)}
         cys.append("(mkCCycle %s %s %s %d)" % (cbool(not co["recent"]), clist([coutcome(o) for o in ocs]),
-                                               clist([cfile(it, f) for f in co["files"]]), co["manifests"]))
+                                               clist([cfile(it, f, byname.get(f["name"], (False, False)) if f["meta"] else (False, False)) for f in co["files"]]),
+                                               co["manifests"]))
     return "(mkCCase code_params (mkConfig %d %d) %s %s)" % (c["min_files"], c["max_batch"], files, clist(cys))
 
 
@@ -621,31 +647,36 @@ def run(res, tier, seed):
                            "final_files": [len(f["rows"]) for f in obs[i]["cycles"][-1]["files"]], "final_manifests": obs[i]["cycles"][-1]["manifests"]}
                           for i in (0, len(cases) // 2, len(cases) - 1)]
 
-    known = [k for k in vlib.known_for("C09") if k.get("signature") == SIGNATURE]
+    known_partial = [k for k in vlib.known_for("C09") if k.get("signature") == SIGNATURE_PARTIAL]
+
+    def is_known(i):
+        """rows lost by a dedup on a partial tag set, exactly as the model predicts"""
+        return bool(known_partial) and has_partial(cases[i]) and i in morf and i not in dis
     reproduced = 0
     reported = False
-    n_bad = sum(1 for i in orf if not (excluded_class(cases[i]) and known and i in morf and i not in dis))
+    n_bad = sum(1 for i in orf if not is_known(i))
     for i in sorted(orf):
         c = cases[i]
         replay_obj = {"kind": "oracle-failure", "case": dict(c, cycles=[[list(o) for o in ocs] for ocs in c["cycles"]]),
                       "observed_final": obs[i]["cycles"][-1], "before": obs[i]["before"],
                       "how_to_replay": "python3 tools/check.py C09 --replay <this file>"}
-        if excluded_class(c) and known and i in morf and i not in dis:
+        if is_known(i):
             reproduced += 1
             continue
         if sum(1 for v in res.violations) < 3:      # at most three concrete inputs are written out
             res.violation("rows lost or duplicated after a compaction history (case %s; %d such cases in this run)" % (c["id"], n_bad), replay_obj)
         reported = True
     if reproduced:
-        res.known_finding("a compaction job killed after its upload is retried on halves by compactFilesAdaptively without manifest recovery: "
-                          "rows visible twice (%d generated histories incl. the witness)" % reproduced)
+        res.known_finding("a batch that mixes a compacted output (no tag metadata) with files whose arc:tags name only part of the tag columns is deduplicated on "
+                          "the partial key: rows that differ only in the missing tag are dropped (%d generated histories)" % reproduced)
     res.cov["known_finding_cases"] = reproduced
 
     if failed and not reported:
         res.violation("proof obligation(s) no longer check: " + "; ".join(x for _, x in failed),
                       {"kind": "obligation-failed", "theorems": [t for t, _ in failed], "detail": [x for _, x in failed], "params": params},
                       no_input=True, suffix="obligation")
-    real_dis = sorted(dis)
+    # inside the known-finding class a passing oracle means the finding was repaired: no alarm
+    real_dis = [i for i in sorted(dis) if not (has_partial(cases[i]) and i not in orf)]
     if real_dis:
         c = cases[real_dis[0]]
 
